@@ -245,6 +245,8 @@ func c12Worker(w *W) {
 		sents := make([][]sent, W)
 		var wg sync.WaitGroup
 		var retBad sync.Map
+		var zeroMu sync.Mutex
+		zeroSent := map[string]int{} // handle name -> zero-length writes
 		for wi := 0; wi < W; wi++ {
 			wg.Add(1)
 			wr := newRng(w.Spec.Seed, uint64(w.Spec.Shard)*7_000_003+uint64(ci)*97+uint64(wi))
@@ -254,6 +256,21 @@ func c12Worker(w *W) {
 				big := 0
 				for i := 0; i < per; i++ {
 					name := names[wr.IntN(len(names))]
+					if i%17 == 5 {
+						// a zero-length payload (nil or empty, e.g. what fmt.Fprint(w) produces): one more write like any other -
+						// reported as (0, nil) and handed to every appender of the logger once
+						var zb []byte
+						if i%2 == 0 {
+							zb = buf[:0]
+						}
+						nn, err := handles[name].Write(zb)
+						if nn != 0 || err != nil {
+							retBad.Store(fmt.Sprintf("zero-length write %d of writer %d", i, wi), fmt.Sprintf("Write returned (%d,%v) for 0 bytes", nn, err))
+						}
+						zeroMu.Lock()
+						zeroSent[name]++
+						zeroMu.Unlock()
+					}
 					id := fmt.Sprintf("id-w%dx%d-%d", wi, ci, i)
 					buf = c12payload(wr, id, buf)
 					if len(buf) > 1<<19 {
@@ -401,6 +418,27 @@ func c12Worker(w *W) {
 						last = p
 					}
 				}
+			}
+			if kindOf == "recording-appender" {
+				zExp := 0
+				for nm, lg := range lgs {
+					for _, s2 := range lg.Sinks {
+						if s2 == sk {
+							zExp += zeroSent[nm]
+						}
+					}
+				}
+				zGot := 0
+				for _, sn := range o.snaps[""] {
+					if sn.n == 0 {
+						zGot++
+					}
+				}
+				if zGot != zExp && !bad {
+					bad = true
+					w.Violate("C12:zero-length:"+kindOf, fmt.Sprintf("%d zero-length payloads were written to the logger(s) of appender %s, the appender received %d zero-length Write calls", zExp, sk, zGot), cs)
+				}
+				w.Count("zero_length_deliveries_checked", int64(zExp))
 			}
 			w.Count("payload_deliveries_checked", int64(len(exp)))
 		}
